@@ -29,6 +29,8 @@ type bcase struct {
 	// deep-nesting cases are described, not spelled out
 	Path  []int32 `json:"path_field_numbers,omitempty"`
 	Depth int     `json:"depth,omitempty"`
+	DevAt int     `json:"deviation_level,omitempty"`
+	DevFD int32   `json:"deviation_field,omitempty"`
 }
 
 var addrRe = regexp.MustCompile(`0x[0-9a-f]+|\[[0-9:-]+\]|\d+`)
@@ -201,7 +203,7 @@ func main() {
 			h.Finish()
 		}
 		if c.Space == "depth" {
-			checkDepth(h, md, c.Path, c.Depth)
+			checkDepthDev(h, md, c.Path, c.Depth, c.DevAt-1, c.DevFD)
 		} else {
 			b, _ := hex.DecodeString(c.Bytes)
 			decode(h, md, b, c.Space, true)
@@ -477,26 +479,35 @@ func recursivePaths(md protoreflect.MessageDescriptor) [][]protoreflect.FieldDes
 // nested builds the encoding of `levels` nested messages along the cyclic path (the top message is
 // level 1; the innermost message is empty).
 func nested(path []protoreflect.FieldDescriptor, levels int) []byte {
-	// sizes from the inside out
-	n := levels - 1 // number of wrappers
+	return nestedDev(path, levels, -1, nil)
+}
+
+// nestedDev is nested with ONE deviation: the hop out of level devLevel (0-based) uses devFD instead
+// of the path's field (devFD must lead to the same message type).
+func nestedDev(path []protoreflect.FieldDescriptor, levels int, devLevel int, devFD protoreflect.FieldDescriptor) []byte {
+	n := levels - 1 // number of wrappers; wrapper k (1-based from the inside) is the hop out of level n-k
+	hop := func(k int) protoreflect.FieldDescriptor {
+		lvl := n - k
+		if lvl == devLevel && devFD != nil {
+			return devFD
+		}
+		return path[lvl%len(path)]
+	}
 	sizes := make([]int, n+1)
-	sizes[0] = 0
-	wrap := func(k int) (pre int) { // overhead bytes of wrapper k (1-based from inside), given inner size sizes[k-1]
-		fd := path[(n-k)%len(path)]
+	for k := 1; k <= n; k++ {
+		fd := hop(k)
 		inner := sizes[k-1]
 		tag := protowire.SizeTag(protowire.Number(fd.Number()))
 		if fd.IsMap() {
-			entry := 1 + protowire.SizeVarint(uint64(inner)) + inner // value record (tag 0x12)
-			return tag + protowire.SizeVarint(uint64(entry)) + 1 + protowire.SizeVarint(uint64(inner))
+			entry := 1 + protowire.SizeVarint(uint64(inner)) + inner
+			sizes[k] = inner + tag + protowire.SizeVarint(uint64(entry)) + 1 + protowire.SizeVarint(uint64(inner))
+		} else {
+			sizes[k] = inner + tag + protowire.SizeVarint(uint64(inner))
 		}
-		return tag + protowire.SizeVarint(uint64(inner))
-	}
-	for k := 1; k <= n; k++ {
-		sizes[k] = sizes[k-1] + wrap(k)
 	}
 	out := make([]byte, 0, sizes[n])
 	for k := n; k >= 1; k-- {
-		fd := path[(n-k)%len(path)]
+		fd := hop(k)
 		inner := sizes[k-1]
 		out = protowire.AppendTag(out, protowire.Number(fd.Number()), protowire.BytesType)
 		if fd.IsMap() {
@@ -536,14 +547,41 @@ func pathFrom(md protoreflect.MessageDescriptor, nums []int32) []protoreflect.Fi
 }
 
 func checkDepth(h *hz.H, md protoreflect.MessageDescriptor, nums []int32, levels int) {
+	checkDepthDev(h, md, nums, levels, -1, 0)
+}
+
+// typeAtLevel returns the message type reached after following the cyclic path for lvl hops.
+func typeAtLevel(md protoreflect.MessageDescriptor, path []protoreflect.FieldDescriptor, lvl int) protoreflect.MessageDescriptor {
+	cur := md
+	for i := 0; i < lvl%len(path); i++ {
+		fd := path[i]
+		if fd.IsMap() {
+			cur = fd.MapValue().Message()
+		} else {
+			cur = fd.Message()
+		}
+	}
+	return cur
+}
+
+func checkDepthDev(h *hz.H, md protoreflect.MessageDescriptor, nums []int32, levels int, devAt int, devNum int32) {
 	path := pathFrom(md, nums)
 	if path == nil {
 		h.InternalError("depth: path does not exist in this schema")
 		return
 	}
 	c := bcase{Type: string(md.FullName()), Space: "depth", Path: nums, Depth: levels}
-	in := nested(path, levels)
-	h.Eval(true, hz.Hash("depth", string(md.FullName()), fmt.Sprint(nums), fmt.Sprint(levels)))
+	var devFD protoreflect.FieldDescriptor
+	if devAt >= 0 {
+		devFD = typeAtLevel(md, path, devAt).Fields().ByNumber(protoreflect.FieldNumber(devNum))
+		if devFD == nil {
+			h.InternalError("depth: deviation field does not exist")
+			return
+		}
+		c.DevAt, c.DevFD = devAt+1, devNum // stored 1-based so that 0 means "none"
+	}
+	in := nestedDev(path, levels, devAt, devFD)
+	h.Eval(true, hz.Hash("depth", string(md.FullName()), fmt.Sprint(nums), fmt.Sprint(levels), fmt.Sprint(devAt, devNum)))
 	d := enum.NewDyn(md)
 	refErr := proto.Unmarshal(in, d)
 	g := enum.NewGo(md)
@@ -553,7 +591,11 @@ func checkDepth(h *hz.H, md protoreflect.MessageDescriptor, nums []int32, levels
 		return
 	}
 	if (err == nil) != (refErr == nil) {
-		h.ViolateMin(fmt.Sprintf("C06/depth-limit-disagrees/%s/path=%v", md.FullName(), shapePath(path)), fmt.Sprintf("%d nested message levels along fields %v of %s: generated decoder err=%v, reference err=%v (nesting beyond the protobuf-go limit must be rejected, not followed)", levels, nums, md.FullName(), err, refErr), c, levels)
+		dev := ""
+		if devFD != nil {
+			dev = fmt.Sprintf("/one-%s-hop", shapePath([]protoreflect.FieldDescriptor{devFD}))
+		}
+		h.ViolateMin(fmt.Sprintf("C06/depth-limit-disagrees/%s/path=%v%s", md.FullName(), shapePath(path), dev), fmt.Sprintf("%d nested message levels along fields %v (deviation %v) of %s: generated decoder err=%v, reference err=%v (nesting beyond the protobuf-go limit must be rejected, not followed)", levels, nums, [2]int32{int32(devAt), devNum}, md.FullName(), err, refErr), c, levels)
 		return
 	}
 	if err == nil && levels <= 2000 {
@@ -608,6 +650,74 @@ func runDepth(h *hz.H, types []protoreflect.MessageDescriptor) {
 		}
 		names = append(names, fmt.Sprintf("%s: %d recursive paths", md.FullName(), len(paths)))
 	}
+	// single-deviation paths: one hop (at a level near the top or near the limit) goes through a
+	// different field leading to the same type
+	type djob struct {
+		md     protoreflect.MessageDescriptor
+		nums   []int32
+		depth  int
+		at     int
+		devNum int32
+	}
+	var djobs []djob
+	for _, md := range types {
+		paths := recursivePaths(md)
+		for _, p := range paths {
+			for hopIdx := range p {
+				from := typeAtLevel(md, p, hopIdx)
+				var target protoreflect.MessageDescriptor
+				if p[hopIdx].IsMap() {
+					target = p[hopIdx].MapValue().Message()
+				} else {
+					target = p[hopIdx].Message()
+				}
+				fs := from.Fields()
+				for i := 0; i < fs.Len(); i++ {
+					alt := fs.Get(i)
+					var t2 protoreflect.MessageDescriptor
+					if alt.IsMap() {
+						if alt.MapValue().Kind() == protoreflect.MessageKind {
+							t2 = alt.MapValue().Message()
+						}
+					} else if alt.Kind() == protoreflect.MessageKind {
+						t2 = alt.Message()
+					}
+					if t2 == nil || t2.FullName() != target.FullName() || alt.Number() == p[hopIdx].Number() {
+						continue
+					}
+					levelsNear := []int{0, 1, 2, 3}
+					for l := 9990; l <= 10001; l++ {
+						levelsNear = append(levelsNear, l)
+					}
+					for _, at := range levelsNear {
+						if at%len(p) != hopIdx {
+							continue
+						}
+						for _, depth := range []int{at + 2, 10000, 10001, 12000} {
+							if depth >= at+2 {
+								djobs = append(djobs, djob{md, pathNums(p), depth, at, int32(alt.Number())})
+							}
+						}
+					}
+				}
+			}
+		}
+	}
+	if !h.Thorough() && len(djobs) > 4000 {
+		// keep every (path, deviation field) but thin the levels: quick tier
+		var keep []djob
+		for i, j := range djobs {
+			if j.at >= 9996 && j.at <= 10000 || j.at == 0 || i%7 == 0 {
+				keep = append(keep, j)
+			}
+		}
+		djobs = keep
+	}
+	h.Rep.Bounds["single_deviation_depth_cases"] = len(djobs)
+	h.Par(int64(len(djobs)), "nesting depths with one deviating hop", func(i int64) {
+		j := djobs[i]
+		checkDepthDev(h, j.md, j.nums, j.depth, j.at, j.devNum)
+	})
 	h.Rep.Bounds["recursive_paths"] = names
 	h.Sample(map[string]interface{}{"space": "depth", "type": string(jobs[0].md.FullName()), "path_field_numbers": jobs[0].nums, "depths": depths})
 	h.Rep.Bounds["depths_in_process"] = depths
